@@ -431,6 +431,20 @@ private def molBnote : Mol := { molB with metadata := [("verif_note", [("x", [Va
 example : shareMolType npClose molBposres molB = false ∧ itpView molBposres ≠ itpView molB
     ∧ shareMolType npClose molBnote molB = true ∧ itpView molBnote = itpView molB
     ∧ nameMolTypes (shareMolType npClose) true [molBposres, molB, molBnote] = [0, 1, 1] := by decide
+/-- falsy but legal values are values: residue number 0, charge 0 and an empty chain appear in the
+records as they are (not as the writer's default), and residue number 0 is not residue number 1
+nor a missing residue number for the molecule-type comparison -/
+private def zeroAtom (resid : Val) : Atom :=
+  { key := 0, attrs := [("atomname", Val.str "BB"), ("chain", Val.str ""), ("charge", Val.num 0),
+                        ("charge_group", Val.int 0)] ++
+      (match resid with | Val.none => [] | v => [("resid", v)]) ++ [("resname", Val.str "ALA")] }
+private def zeroMol (resid : Val) : Mol :=
+  { nrexcl := some 1, ff := none, metadata := [], edges := [], inters := [], nodes := [zeroAtom resid] }
+example : writeAtoms (zeroMol (Val.int 0)) = [⟨Val.str "BB", Val.str "ALA", Val.int 0⟩]
+    ∧ writeAtoms (zeroMol (Val.int (-1))) = [⟨Val.str "BB", Val.str "ALA", Val.int (-1)⟩]
+    ∧ shareMolType npClose (zeroMol (Val.int 0)) (zeroMol (Val.int 0)) = true
+    ∧ shareMolType npClose (zeroMol (Val.int 0)) (zeroMol (Val.int 1)) = false
+    ∧ shareMolType npClose (zeroMol (Val.int 0)) (zeroMol Val.none) = false := by decide
 /-- with the exact comparison the hypothesis is empty -/
 example (m t : Mol) : ExactAttrs exactClose m t := by
   intro x _ y _ h; simpa [exactClose] using h
